@@ -490,6 +490,34 @@ func checkFromJaccard(c C17Case, o *Obs) error {
 }
 
 func exhaustiveC17(thorough bool, emit func(C17Case) bool) {
+	// contig-sized single sequences (size ladder) and read sets (thousands of short reads in one
+	// call, totalling more than any internal batch), real-data-shaped
+	for i, n := range sizeLadder {
+		if n < 4000 {
+			continue
+		}
+		s := realDNA(n, i, true, true)
+		// every other case with a sketch large enough to hold every distinct k-mer, so that a single
+		// lost or invented k-mer shows
+		size := 50 + i
+		if i%2 == 0 {
+			size = n + 16
+		}
+		c := C17Case{Kind: "sketch", Seqs: []gen.B{gen.B("ACGTTGCAAT"), s}, K: []int{5, 21, 31}[i%3], N: size, RC: []bool{false, true}, CaseMode: 2, Rot: 1, Dup: 0, SplitAt: n / 3, Partition: []int{1}, N2: 7}
+		if !emit(c) {
+			return
+		}
+	}
+	for _, readLen := range []int{30, 100, 151} {
+		long := realDNA(200000, readLen, true, true)
+		var reads []gen.B
+		for at := 0; at+readLen <= len(long); at += readLen - readLen/5 {
+			reads = append(reads, gen.B(long[at:at+readLen]))
+		}
+		if !emit(C17Case{Kind: "sketch", Seqs: reads, K: 21, N: 200 + 1000*(readLen%3)*len(reads), RC: []bool{true, false, false}, CaseMode: 1, Rot: 17, Dup: 3, SplitAt: 40, Partition: []int{1, 500, 3}, N2: 20}) {
+			return
+		}
+	}
 	// FromJaccard on the grid j=i/1000, k=1..32, adjacent pairs
 	for k := 1; k <= 32; k++ {
 		for i := 0; i < 1000; i++ {
